@@ -376,6 +376,7 @@ impl tokio::task::JoinSet<Result<CommandTaskFinishInfo, CommandTaskCancelInfo>> 
 // ASSUMED (repo function, not verified here): spawn_task builds the tokio::process::Command (cwd, argv, stdin null) and starts it
 #[verifier::external_body]
 pub(crate) fn spawn_task(command_work_path: &path::Path, command_path: &path::Path, command_args: &Option<Vec<String>>) -> (r: Result<tokio_process::Child, MonorailError>)
+    ensures r matches Err(e) ==> !from_listener(e)
 { unimplemented!() }
 
 impl CommandRunResult {
@@ -449,7 +450,7 @@ fn create_skipped_result(command: &str, target_groups: &[Vec<PlanTarget>]) -> âŸ
 
 pub open spec fn runnable(pt: PlanTarget) -> bool { pt.command_path is Some && file::is_exec(pt.command_path->Some_0@) }
 pub open spec fn not_exec(pt: PlanTarget) -> bool { pt.command_path is Some && !file::is_exec(pt.command_path->Some_0@) }
-//!fn src/app/run.rs schedule_task rules=R1,R7,R10 props=C05,C06,C16,C04
+//!fn src/app/run.rs schedule_task rules=R1,R7,R10 props=C05,C06,C16,C04,C15
 async fn schedule_task(
     task__0: CommandTask,
     plan_target: &PlanTarget,
@@ -477,6 +478,7 @@ async fn schedule_task(
 @        (res is Ok && plan_target.command_path is None) ==> final(result_target_group)@.dom().contains(plan_target.path@) && final(result_target_group)@[plan_target.path@].status == RunStatus::Undefined, // [C06]
 @        (res is Ok && not_exec(*plan_target)) ==> final(result_target_group)@.dom().contains(plan_target.path@) && final(result_target_group)@[plan_target.path@].status == RunStatus::NotExecutable, // [C06]
 @        ids_ok(final(join_set).ids, final(abort_table)@, task__0.id as int + 1),
+@        res matches Err(e) ==> !from_listener(e), // [C15]
 { let mut task = task__0;
 @    broadcast use axiom_to_string_string;
     let mut failed = false;
@@ -523,7 +525,7 @@ async fn schedule_task(
 }
 //!end
 
-//!fn src/app/run.rs process_task_results rules=R1,R7,R10 props=C04,C06
+//!fn src/app/run.rs process_task_results rules=R1,R7,R10 props=C04,C06,C15
 async fn process_task_results(
     js__0: tokio::task::JoinSet<Result<CommandTaskFinishInfo, CommandTaskCancelInfo>>,
     target_group: &[PlanTarget],
@@ -550,6 +552,7 @@ async fn process_task_results(
 @        // C06: the group is reported failed exactly when some joined task failed (non-zero exit, or a task error)
 @        res matches Ok(f) ==> (f <==> final(w).bad_joins > old(w).bad_joins), // [C06]
 @        final(w).bad_joins >= old(w).bad_joins,
+@        res matches Err(e) ==> !from_listener(e), // [C15]
 { let mut js = js__0;
     let mut failed = false;
 @    let ghost tr0 = w.trace;
@@ -662,7 +665,7 @@ async fn process_task_results(
 // ASSUMED (repo function, not verified here; Compressor::register routing is not yet under contract): one client pair per target
 #[verifier::external_body]
 fn initialize_compressor(plan_targets: &[PlanTarget], num_threads: usize) -> (r: Result<(log::Compressor, Vec<(log::CompressorClient, log::CompressorClient)>), MonorailError>)
-    ensures r matches Ok(p) ==> p.1@.len() == plan_targets@.len()
+    ensures r matches Ok(p) ==> p.1@.len() == plan_targets@.len(), r matches Err(e) ==> !from_listener(e)
 { unimplemented!() }
 
 //!fn src/app/run.rs initialize_log_stream rules=R1 props=C15
@@ -678,7 +681,7 @@ async fn initialize_log_stream(cfg: &server::LogServerConfig) -> âŸ¦(r: âŸ§Optio
 }
 //!end
 
-//!fn src/app/run.rs process_plan rules=R1,R3,R10,R13 props=C04,C05,C06,C16
+//!fn src/app/run.rs process_plan rules=R1,R3,R10,R13 props=C04,C05,C06,C16,C15
 async fn process_plan(
     cfg: &core::Config,
     plan: &Plan,
@@ -701,6 +704,8 @@ async fn process_plan(
 @        res matches Ok(p) ==> (!p.1 ==> final(w).bad_joins == 0), // [C06]
 @        // C05: one result per planned command
 @        res matches Ok(p) ==> p.0@.len() == plan.command_target_groups@.len(), // [C05]
+@        // C15: whatever makes the run fail with an error, it is not the optional log listener (absent, unreachable, or failing mid-handshake)
+@        res matches Err(e) ==> !from_listener(e), // [C15]
 {
     // TODO: parameterize addr from cfg
     let log_stream_client = initialize_log_stream(&cfg.server.log).await;
